@@ -371,7 +371,47 @@ func isIntKindFunc(fn *ssa.Function) bool {
 	return true
 }
 
+// c05FloatBoxes (R3): a function of vm that boxes a float (func(float) reflect.Value) returns reflect.ValueOf of that very float on
+// every path. A shared value picked by a comparison cannot stand in for it: == does not distinguish -0 from +0.
+func c05FloatBoxes(p *Program, r *Report, m *vmModel) {
+	r.Explain("R3 also: a func(float) reflect.Value of vm returns reflect.ValueOf of that very float on every path.")
+	n := 0
+	for _, fn := range m.fns {
+		sig := fn.Signature
+		if sig.Params().Len() != 1 || sig.Results().Len() != 1 || !isReflectValue(sig.Results().At(0).Type()) || len(fn.Blocks) == 0 || sig.Recv() != nil {
+			continue
+		}
+		bt, ok := sig.Params().At(0).Type().(*types.Basic)
+		if !ok || bt.Info()&types.IsFloat == 0 {
+			continue
+		}
+		n++
+		bad := ""
+		for _, b := range fn.Blocks {
+			ret, ok := b.Instrs[len(b.Instrs)-1].(*ssa.Return)
+			if !ok {
+				continue
+			}
+			okRet := false
+			if c, ok := ret.Results[0].(*ssa.Call); ok && isFuncNamed(calleeObj(c), "reflect", "", "ValueOf") {
+				if mi, ok := c.Call.Args[0].(*ssa.MakeInterface); ok && mi.X == ssa.Value(fn.Params[0]) {
+					okRet = true
+				}
+			}
+			if !okRet {
+				bad = "the return at " + p.Pos(instrPos(ret)) + " yields something else than reflect.ValueOf of the number given"
+			}
+		}
+		r.Check(bad == "", "C05.R3", funcName(fn)+"|boxes the float itself", p.Pos(fn.Pos()), "every return is reflect.ValueOf(v)",
+			bad+": a float result is replaced by a stand-in chosen by comparison, and -0 == 0 (so 0.0 * -1 becomes +0 and 1 / it +Inf instead of -Inf)")
+	}
+	if n == 0 {
+		r.Undecided("C05.R3", "float box", "vm", "no func(float) reflect.Value helper found in package vm")
+	}
+}
+
 func c05Cache(p *Program, r *Report, m *vmModel) {
+	c05FloatBoxes(p, r, m)
 	// the lookup: func(int64) reflect.Value indexing a package-level array of reflect.Value
 	var lookup *ssa.Function
 	var arr *ssa.Global
